@@ -241,8 +241,10 @@ type verifC07Chan struct {
 	added   uint64 // HTLCs handed to alice.AddHTLC so far
 	signed  uint64 // value of `added` when alice last signed a commitment
 	tip     bool   // signed commitment not yet revoked by bob
-	tipSigs *lnwallet.CommitSigs
 	live    []uint64
+	// wire holds alice's messages to bob in order (update_add_htlc,
+	// commitment_signed); bob processes them lazily but never out of order.
+	wire []any
 }
 
 type verifC07Fixture struct {
@@ -283,9 +285,7 @@ func (c *verifC07Chan) add() error {
 		return fmt.Errorf("AddHTLC returned index %d, ledger says %d", idx, c.added)
 	}
 	htlc.ID = idx
-	if _, err := c.bob.ReceiveHTLC(htlc); err != nil {
-		return fmt.Errorf("ReceiveHTLC: %w", err)
-	}
+	c.wire = append(c.wire, htlc)
 	c.added++
 	c.live = append(c.live, idx)
 	return nil
@@ -295,19 +295,31 @@ func (c *verifC07Chan) revoke() error {
 	if !c.tip {
 		return nil
 	}
-	if err := c.bob.ReceiveNewCommitment(c.tipSigs); err != nil {
-		return fmt.Errorf("ReceiveNewCommitment: %w", err)
+	// deliver alice's messages up to and including the signature.
+	for len(c.wire) > 0 {
+		msg := c.wire[0]
+		c.wire = c.wire[1:]
+		switch m := msg.(type) {
+		case *lnwire.UpdateAddHTLC:
+			if _, err := c.bob.ReceiveHTLC(m); err != nil {
+				return fmt.Errorf("ReceiveHTLC: %w", err)
+			}
+		case *lnwallet.CommitSigs:
+			if err := c.bob.ReceiveNewCommitment(m); err != nil {
+				return fmt.Errorf("ReceiveNewCommitment: %w", err)
+			}
+			rev, _, _, err := c.bob.RevokeCurrentCommitment()
+			if err != nil {
+				return fmt.Errorf("RevokeCurrentCommitment: %w", err)
+			}
+			if _, _, err := c.alice.ReceiveRevocation(rev); err != nil {
+				return fmt.Errorf("ReceiveRevocation: %w", err)
+			}
+			c.tip = false
+			return nil
+		}
 	}
-	rev, _, _, err := c.bob.RevokeCurrentCommitment()
-	if err != nil {
-		return fmt.Errorf("RevokeCurrentCommitment: %w", err)
-	}
-	if _, _, err := c.alice.ReceiveRevocation(rev); err != nil {
-		return fmt.Errorf("ReceiveRevocation: %w", err)
-	}
-	c.tip = false
-	c.tipSigs = nil
-	return nil
+	return fmt.Errorf("tip pending but no signature on the wire")
 }
 
 func (c *verifC07Chan) sign() error {
@@ -318,7 +330,7 @@ func (c *verifC07Chan) sign() error {
 	if err != nil {
 		return fmt.Errorf("SignNextCommitment: %w", err)
 	}
-	c.tipSigs = st.CommitSigs
+	c.wire = append(c.wire, st.CommitSigs)
 	c.tip = true
 	c.signed = c.added
 	return nil
@@ -557,6 +569,13 @@ func (m *verifC07Model) deleteCircuits(keys []CircuitKey) int {
 // outgoing key, keystones whose outgoing HTLC did not reach a commitment are
 // rolled back to half-open, the volatile closed set is empty.
 func (m *verifC07Model) restart(env *verifC07Env) (purged, trimmed, keptByRes int) {
+	purged, keptByRes = m.purge(env)
+	trimmed = m.reload(env)
+	return
+}
+
+// purge removes the circuits of fully closed channels.
+func (m *verifC07Model) purge(env *verifC07Env) (purged, keptByRes int) {
 	isClosed := func(id lnwire.ShortChannelID) bool {
 		if id.ToUint64() == 0 {
 			return false
@@ -585,6 +604,12 @@ func (m *verifC07Model) restart(env *verifC07Env) (purged, trimmed, keptByRes in
 		}
 		purged++
 	}
+	return
+}
+
+// reload marks everything loaded from disk, forgets accepted responses and
+// trims the keystones of open channels that did not reach a commitment.
+func (m *verifC07Model) reload(env *verifC07Env) (trimmed int) {
 	for _, c := range m.pending {
 		c.LFD = true
 	}
@@ -596,6 +621,17 @@ func (m *verifC07Model) restart(env *verifC07Env) (purged, trimmed, keptByRes in
 		trimmed += m.trim(env.scids[i], env.Next[i])
 	}
 	return
+}
+
+// contiguousAll: the uncommitted keystones of every open channel form one run
+// starting at the channel's next uncommitted index.
+func (m *verifC07Model) contiguousAll(env *verifC07Env) bool {
+	for i := 0; i < 3; i++ {
+		if env.Status[i] == 0 && !m.contiguous(env.scids[i], env.Next[i]) {
+			return false
+		}
+	}
+	return true
 }
 
 // ---------------------------------------------------------------------------
@@ -964,6 +1000,41 @@ func verifC07ErrName(err error) string {
 // Restart forks.
 // ---------------------------------------------------------------------------
 
+// blockedByPurgedKeystone: o is a keystone of an open channel with id >= the
+// channel's next uncommitted index, and (before the purge) a lower keystone of
+// the same channel, also >= that index, belonged to a circuit whose incoming
+// channel is fully closed.
+func (x *verifC07Run) blockedByPurgedKeystone(o CircuitKey, env *verifC07Env) bool {
+	ci := -1
+	for i := range env.scids {
+		if env.scids[i] == o.ChanID {
+			ci = i
+		}
+	}
+	if ci < 0 || env.Status[ci] != 0 || o.HtlcID < env.Next[ci] {
+		return false
+	}
+	if x.m.opened[o] == nil {
+		return false
+	}
+	closed := func(id lnwire.ShortChannelID) bool {
+		for i := range env.scids {
+			if env.scids[i] == id && env.Status[i] == 2 && id.ToUint64() != 0 {
+				return true
+			}
+		}
+		return false
+	}
+	for p, c := range x.m.opened {
+		if p.ChanID == o.ChanID && p.HtlcID >= env.Next[ci] && p.HtlcID < o.HtlcID &&
+			closed(c.In.ChanID) {
+
+			return true
+		}
+	}
+	return false
+}
+
 func (x *verifC07Run) pickRes(r *verifRng) map[CircuitKey]bool {
 	res := map[CircuitKey]bool{}
 	outs := make([]CircuitKey, 0, len(x.m.opened))
@@ -996,13 +1067,22 @@ func (x *verifC07Run) pickRes(r *verifRng) map[CircuitKey]bool {
 	return res
 }
 
-func (x *verifC07Run) restartable() bool {
-	for i, c := range x.fx.chans {
-		if x.status[i] == 0 && !x.m.contiguous(c.scid, c.signed) {
-			return false
-		}
+// restartable: 0 = the keystone runs are contiguous before and after the
+// purge of closed channels (restart is judged), 1 = not contiguous to begin
+// with (outside the caller contract, not judged), 2 = contiguous, but the
+// purge of a closed *incoming* channel's circuits leaves a gap in another
+// channel's run of uncommitted keystones.
+func (x *verifC07Run) restartable() int {
+	env := x.env(nil)
+	if !x.m.contiguousAll(env) {
+		return 1
 	}
-	return true
+	img := x.m.clone()
+	img.purge(env)
+	if !img.contiguousAll(env) {
+		return 2
+	}
+	return 0
 }
 
 // ledgerCheck compares the ledger with what lnd reads from disk; a mismatch
@@ -1027,9 +1107,13 @@ func (x *verifC07Run) ledgerCheck() {
 
 func (x *verifC07Run) fork(why string) {
 	vc := x.vc
-	if !x.restartable() {
+	gapByPurge := false
+	switch x.restartable() {
+	case 1:
 		vc.Count("fork_skipped_noncontiguous", 1)
 		return
+	case 2:
+		gapByPurge = true
 	}
 	fr := x.r.Fork("fork")
 	env := x.env(x.pickRes(fr))
@@ -1045,11 +1129,13 @@ func (x *verifC07Run) fork(why string) {
 	}
 	f.Close()
 	defer os.Remove(path)
-	bk, err := verifC07OpenBolt(x.dir, name)
+	rawBk, err := verifC07OpenBolt(x.dir, name)
 	if err != nil {
 		x.t.Fatalf("verifC07: open fork: %v", err)
 	}
-	defer bk.Close()
+	defer rawBk.Close()
+	// not a BatchDB: bbolt's Batch would wait 10ms per call.
+	var bk kvdb.Backend = &verifC07DB{inner: rawBk}
 
 	ctx := "fork(" + why + ")"
 	oracle := "restart_image"
@@ -1081,6 +1167,30 @@ func (x *verifC07Run) fork(why string) {
 	}
 	if len(img.opened) > 0 {
 		vc.Count("fork_surviving_keystones", int64(len(img.opened)))
+	}
+	if gapByPurge {
+		// The keystones were assigned in order, but purging the circuits
+		// of a fully closed incoming channel removed some of them. The
+		// statement still requires the remaining uncommitted keystones
+		// to be rolled back. This one class is judged under its own
+		// fingerprint (known finding KF-C07-1); anything else falls
+		// through to the ordinary comparison.
+		vc.Count("fork_gap_by_purge_evals", 1)
+		for _, o := range x.outKeys() {
+			got := cm2.LookupOpenCircuit(o)
+			if got == nil || img.opened[o] != nil {
+				continue
+			}
+			if x.blockedByPurgedKeystone(o, env) {
+				x.violate("restart_image", "uncommitted-keystone-behind-purged-one-not-trimmed",
+					fmt.Sprintf("[%s] keystone %s (in %s) is still open after the restart although its "+
+						"outgoing HTLC id is >= the channel's NextLocalHtlcIndex; a lower keystone of "+
+						"the same outgoing channel belonged to a circuit of a fully closed incoming "+
+						"channel and was purged, after which the trim scan stops at the gap",
+						ctx, verifC07KeyStr(o), verifC07KeyStr(got.Incoming)))
+				return
+			}
+		}
 	}
 	if !x.compare(cm2, img, oracle, ctx) {
 		return
@@ -1518,7 +1628,7 @@ func (x *verifC07Run) opTrim() {
 					break
 				}
 			}
-			if !x.restartable() {
+			if x.restartable() != 0 {
 				x.aborted = true
 				x.vc.Count("cases_cut_after_failed_trim", 1)
 				return
@@ -1782,7 +1892,7 @@ func (x *verifC07Run) restartMain(why string) {
 }
 
 func (x *verifC07Run) opRestart() {
-	if !x.restartable() {
+	if x.restartable() != 0 {
 		x.vc.Count("restart_skipped_noncontiguous", 1)
 		return
 	}
@@ -1929,8 +2039,14 @@ func TestVerifC07(t *testing.T) {
 	vc := verifStart(t, "C07", "seq")
 	defer vc.Finish()
 
+	dir := verifC07Scratch(t)
+	if strings.HasPrefix(dir, "/dev/shm/") {
+		// the fixture channels' channeldb files (t.TempDir) go to tmpfs
+		// too: every commitment update is an fsync'ed transaction.
+		t.Setenv("TMPDIR", dir)
+	}
 	fx := verifC07NewFixture(t)
-	x := &verifC07Run{vc: vc, t: t, fx: fx, dir: verifC07Scratch(t), forkEvery: 1}
+	x := &verifC07Run{vc: vc, t: t, fx: fx, dir: dir, forkEvery: 1}
 	vc.Note("scratch", x.dir)
 
 	total := vc.N(2000, 200000)
